@@ -167,7 +167,7 @@ class World:
                 # caller's object and is read again by every later call
                 self.rates = self.agg.get_RedfieldRateMatrix()
                 self.popprop = PopulationPropagator(self.ta, self.rates.data)
-        elif name in ("heom", "heom_free"):
+        elif name in ("heom", "heom_free", "heom_coarse"):
             if self.hprop is None:
                 self.hprop = self.agg.get_KTHierarchyPropagator(depth=self.cfg["hdepth"])
 
@@ -296,6 +296,24 @@ class World:
                                                    time_dependent=td, secular_relaxation=sec, **kw)
             return {"tensor": self.cp(_name(op) + ":tensor", RR, "data"),
                     "ham": self.cp(_name(op) + ":ham", hh, "_data")}
+        if name == "tensor_cut":
+            # combined theory with a cut-off ABOVE every coupling of the dimer (all of them are
+            # split off); the system's Hamiltonian is as it was afterwards
+            _, cut = op
+            RR, hh = self.agg.get_RelaxationTensor(
+                self.ta, relaxation_theory="combined_RedfieldFoerster",
+                coupling_cutoff=qr.convert(float(cut), "1/cm"))
+            return {"tensor": self.cp(_name(op) + ":tensor", RR, "data"),
+                    "ham": self.cp(_name(op) + ":ham", hh, "_data")}
+        if name == "heom_coarse":
+            # a second propagator on the SAME hierarchy with a far too coarse time axis (the run
+            # overflows); whatever it returns, later runs on the hierarchy are not affected
+            from quantarhei.qm.liouvillespace.heom import KTHierarchyPropagator
+            ta2 = qr.TimeAxis(0.0, 150, 400.0)
+            kp = KTHierarchyPropagator(ta2, self.hprop.hy)
+            with numpy.errstate(all="ignore"):
+                ev = kp.propagate(self.rho["rho0"])
+            return {"evolution": numpy.array(ev.data, copy=True)}
         if name == "tensor_nr":
             # the rarely used request "do not recalculate": whatever it re-uses, what comes back is
             # the tensor of THIS request
@@ -664,7 +682,8 @@ def run(run):
                     ["propagate_nr", "standard_Redfield", False, "rho0"],
                     ["propagate", "standard_Redfield", True, "rho0", 1],
                     ["heom_plain"], ["propagate_plain"],
-                    ["propagate_pdeph", 1], ["propagate_pdeph", 5]]
+                    ["propagate_pdeph", 1], ["propagate_pdeph", 5],
+                    ["tensor_cut", 100], ["tensor_cut", 40], ["heom_coarse"]]
     run_bfs(run, execute, depth, cap_s=25 if run.tier == "quick" else 240,
             section="refusals-and-settings")
     execute.menu = full
